@@ -404,6 +404,8 @@ impl FixedMethod {
                 } else {
                     self.buffer.push(character);
                 }
+                // The rest of a multi character value which begins with a Kar.
+                self.buffer.push_str(&value[character.len_utf8()..]);
                 return;
             }
 
